@@ -905,7 +905,9 @@ func (envs *Manager) TeardownEnvironment(environmentId uid.ID, force bool) error
 		"partition":      environmentId.String(),
 		infologger.Level: infologger.IL_Ops,
 	}).Info("environment teardown complete")
-	return err
+	// the teardown went through: a failure of a leave_<state> or DESTROY hook was logged above and must not make the caller
+	// retry a teardown of an environment which is gone, skipping the task cleanup
+	return nil
 }
 
 func (envs *Manager) cancelCallsPendingAwait(env *Environment) {
